@@ -73,6 +73,10 @@ pub struct Cfg {
 	/// build every per-connection service through `TowerServiceBuilder::set_http_middleware` (identity middleware)
 	#[serde(default)]
 	pub via_set_http_middleware: bool,
+	/// the connection limit is set with `TowerServiceBuilder::max_connections` on the service builder, while the
+	/// `ServerConfig` it was made from keeps another value (50)
+	#[serde(default)]
+	pub limit_via_service_builder: bool,
 	/// likewise through `TowerServiceBuilder::set_rpc_middleware` (identity middleware) on the per-connection clone
 	#[serde(default)]
 	pub via_set_rpc_middleware: bool,
@@ -80,7 +84,7 @@ pub struct Cfg {
 
 impl Default for Cfg {
 	fn default() -> Self {
-		Cfg { max_request: 10 * 1024 * 1024, max_response: 10 * 1024 * 1024, max_connections: 100, max_subs: 1024, batch: BatchCfg::Unlimited, buffer_capacity: 1024, mode: 0, ping: None, ping_fine: None, entry: 0, via_set_http_middleware: false, via_set_rpc_middleware: false }
+		Cfg { max_request: 10 * 1024 * 1024, max_response: 10 * 1024 * 1024, max_connections: 100, max_subs: 1024, batch: BatchCfg::Unlimited, buffer_capacity: 1024, mode: 0, ping: None, ping_fine: None, entry: 0, via_set_http_middleware: false, limit_via_service_builder: false, via_set_rpc_middleware: false }
 	}
 }
 
@@ -586,8 +590,13 @@ impl Fixture {
 		let module = build_module(ctx.clone());
 		let methods: Methods = module.into();
 		let forced_ids: Arc<Mutex<std::collections::VecDeque<Value>>> = Default::default();
+		let builder = if cfg.limit_via_service_builder {
+			let other = Cfg { max_connections: 50, ..cfg.clone() };
+			jsonrpsee_server::Server::builder().set_config(server_config_with_ids(&other, string_ids, forced_ids.clone())).to_service_builder().max_connections(cfg.max_connections)
+		} else {
+			jsonrpsee_server::Server::builder().set_config(server_config_with_ids(&cfg, string_ids, forced_ids.clone())).to_service_builder()
+		};
 		let server_cfg = server_config_with_ids(&cfg, string_ids, forced_ids.clone());
-		let builder = jsonrpsee_server::Server::builder().set_config(server_cfg.clone()).to_service_builder();
 		let (stop, handle) = stop_channel();
 		Fixture { ctx, methods, builder, stop, handle, cfg, server_cfg, lowlevel_conn_ids: AtomicU64::new(0), forced_ids }
 	}
